@@ -185,6 +185,16 @@ def discharge(ob, timeout_ms=10000, use_cvc5=True):
         return ob
     global LAST_MODEL
     LAST_MODEL = None
+    if z3.is_false(g):
+        # the goal is literally `false` (an event that must not happen on this path happened): the question is only whether the
+        # path is feasible.  Every branch decision of the path was checked feasible on its quantifier-free part; that part is asked
+        # once more here, so that a counter-model is available without waiting for the quantified part to time out.
+        qf = [a for a in ob.pc if not has_quant(a)]
+        v, m, be, secs = check_sat(qf, min(timeout_ms, 5000), use_cvc5=False)
+        if v == "sat":
+            ob.verdict, ob.model, ob.backend, ob.secs = "sat", m, be + "(path-feasibility)", secs
+            ob.zmodel = LAST_MODEL
+            return ob
     # first on the cone of influence of the goal (sound: fewer hypotheses); a `sat`/`unknown` there is re-asked on the full
     # path condition, so that counter-models always satisfy every assumption
     coi = cone_of_influence(list(ob.pc), g)
